@@ -493,9 +493,26 @@ func intrUnquote(c *Ctx, a []Value) Value {
 		}
 		return Tuple{Conc(r), Iface{}}
 	}
+	s = c.Simplify(s)
+	if g, ok := s.Go(); ok {
+		r, err := strconv.Unquote(g)
+		if err != nil {
+			return Tuple{Str{}, mkErrS(err.Error())}
+		}
+		return Tuple{Conc(r), Iface{}}
+	}
 	units := s.Units()
 	invalid := Tuple{Str{}, mkErrS("invalid syntax")}
-	if len(units) == 4 && units[0].S == `"` && units[1].S == `\` && units[3].S == `"` && units[2].B != nil {
+	isCh := func(u Seg, ch byte) bool {
+		if u.D != nil {
+			return false
+		}
+		if u.B == nil {
+			return u.S[0] == ch
+		}
+		return c.Branch(c.B.Eq(u.B, c.B.BV(uint64(ch), 8)))
+	}
+	if len(units) == 4 && isCh(units[0], '"') && isCh(units[1], '\\') && isCh(units[3], '"') && units[2].B != nil {
 		b := units[2].B
 		table := []struct {
 			ch  byte
@@ -509,7 +526,37 @@ func intrUnquote(c *Ctx, a []Value) Value {
 		// \' is invalid inside double quotes; \x \u \U \0-7 need more characters
 		return invalid
 	}
-	// generic fallback: decide by enumerating the solver's view is not possible; give up on this path
+	// "\xHH" and "\OOO" with symbolic digits (the lexer's pattern already checked the digit classes)
+	if len(units) == 6 && isCh(units[0], '"') && isCh(units[1], '\\') && isCh(units[5], '"') {
+		B := c.B
+		bt := func(u Seg) *sym.Term { return unitByte(B, u) }
+		inR := func(b *sym.Term, lo, hi byte) *sym.Term {
+			return B.And(B.Cmp(sym.OpULe, B.BV(uint64(lo), 8), b), B.Cmp(sym.OpULe, b, B.BV(uint64(hi), 8)))
+		}
+		if isCh(units[2], 'x') {
+			hexv := func(b *sym.Term) (*sym.Term, *sym.Term) {
+				dig, low, up := inR(b, '0', '9'), inR(b, 'a', 'f'), inR(b, 'A', 'F')
+				v := B.Ite(dig, B.Bin(sym.OpSub, b, B.BV('0', 8)), B.Ite(low, B.Bin(sym.OpSub, b, B.BV('a'-10, 8)), B.Bin(sym.OpSub, b, B.BV('A'-10, 8))))
+				return v, B.Or(dig, low, up)
+			}
+			h, okh := hexv(bt(units[3]))
+			l, okl := hexv(bt(units[4]))
+			if !c.Branch(B.And(okh, okl)) {
+				return invalid
+			}
+			return Tuple{ByteStr(B.Bin(sym.OpBOr, B.Bin(sym.OpShl, h, B.BV(4, 8)), l)), Iface{}}
+		}
+		oct := B.And(inR(bt(units[2]), '0', '7'), inR(bt(units[3]), '0', '7'), inR(bt(units[4]), '0', '7'))
+		if c.Branch(oct) {
+			d := func(u Seg) *sym.Term { return B.ZExt(B.Bin(sym.OpSub, bt(u), B.BV('0', 8)), 16) }
+			v := B.Bin(sym.OpAdd, B.Bin(sym.OpAdd, B.Bin(sym.OpMul, d(units[2]), B.BV(64, 16)), B.Bin(sym.OpMul, d(units[3]), B.BV(8, 16))), d(units[4]))
+			if c.Branch(B.Cmp(sym.OpULt, B.BV(255, 16), v)) {
+				return invalid
+			}
+			return Tuple{ByteStr(B.Extract(v, 0, 8)), Iface{}}
+		}
+		return invalid
+	}
 	c.Unsupported("strconv.Unquote on %s", s.String())
 	return nil
 }
@@ -959,4 +1006,23 @@ func intrWriteFile(c *Ctx, a []Value) Value {
 	c.FS.Files[n] = normalize(segs)
 	c.FS.Writes = append(c.FS.Writes, n)
 	return Iface{}
+}
+
+// Simplify replaces symbolic bytes whose domain has been narrowed to one value by constants.
+func (c *Ctx) Simplify(s Str) Str {
+	changed := false
+	segs := make([]Seg, len(s.Segs))
+	copy(segs, s.Segs)
+	for i, g := range segs {
+		if g.B != nil && g.B.Op == sym.OpVar && !c.rel[g.B] {
+			if vals := domValues(c.domOf(g.B)); len(vals) == 1 {
+				segs[i] = Seg{S: string([]byte{byte(vals[0])})}
+				changed = true
+			}
+		}
+	}
+	if !changed {
+		return s
+	}
+	return normalize(segs)
 }
